@@ -23,10 +23,26 @@ bindir="$OUT/.bin/${id:-setup}"
 mkdir -p "$bindir"
 
 build() {
-  # the harness module resolves the library through a modfile whose replace
-  # directive points at the tree under test
+  # 1. a scratch copy of the tree under test in which cmd/astyield puts scheduling points in front of
+  #    synchronisation operations that have no hand-placed hook (sites a change under test may have added);
+  #    /repo itself is never modified.  If the instrumented copy does not build, the tree is used as it is.
+  local src="$bindir/src" target="$REPO"
+  rm -rf "$src"; mkdir -p "$src"
+  ( cd "$VERIF/sim" && go build -o "$bindir/astyield" ./cmd/astyield ) || return 1
+  AUTOPOINTS=-1
+  if rsync -a --exclude .git --exclude testdata --exclude bamboo-specs "$REPO/" "$src/" &&
+     ay=$("$bindir/astyield" "$src" 2>&1) &&
+     ( cd "$src" && go build -tags verif . ./filterlist ./lookup ./rules ./filterutil ) >/dev/null 2>&1; then
+    target="$src"
+    AUTOPOINTS=$(echo "$ay" | sed -n 's/^astyield: \([0-9]*\) scheduling points inserted$/\1/p')
+  else
+    echo "note: automatic scheduling points not used (instrumented copy did not build); using hand-placed hooks only" >&2
+    rm -rf "$src"
+  fi
+  echo "$AUTOPOINTS" > "$bindir/autopoints"
+  # 2. the harness module resolves the library through a modfile whose replace directive points at that tree
   local mf="$bindir/go.mod"
-  sed "s#=> /repo#=> $REPO#" "$VERIF/sim/go.mod" > "$mf"
+  sed "s#=> /repo#=> $target#" "$VERIF/sim/go.mod" > "$mf"
   cp "$REPO/go.sum" "$bindir/go.sum"
   ( cd "$VERIF/sim" &&
     go build -modfile="$mf" -tags verif -o "$bindir/simworker" ./cmd/simworker &&
@@ -72,6 +88,6 @@ if [ "$mode" = "--replay" ]; then
 fi
 
 seed=${VERIF_SEED:-20260926}
-"$bindir/simdriver" -prop "$id" -tier "$mode" -seed "$seed" -verif "$VERIF" -out "$OUT" -bin "$bindir" ${VERIF_SCALE:+-scale "$VERIF_SCALE"}
+"$bindir/simdriver" -prop "$id" -tier "$mode" -seed "$seed" -verif "$VERIF" -out "$OUT" -bin "$bindir" -autopoints "$(cat "$bindir/autopoints" 2>/dev/null || echo -1)" ${VERIF_SCALE:+-scale "$VERIF_SCALE"}
 rc=$?
 exit $rc
